@@ -319,7 +319,7 @@ def run_check(mod, tier, seed, replay=None):
     # 1. regression replays (seconds-long tier)
     regdir = os.path.join(VERIF, "regressions", prop)
     reg_count = 0
-    if os.path.isdir(regdir):
+    if os.path.isdir(regdir) and not os.environ.get("VERIF_NO_REGRESSIONS"):  # (developer switch: measure what the generators find alone)
         if hasattr(mod, "worker_init"):
             pass  # regressions run in a forked child so the parent stays clean
         files = sorted(f for f in os.listdir(regdir) if f.endswith(".json"))
